@@ -18,3 +18,21 @@ package vectorstore
 //@   loop 1 invariant rangeindex >= -1 && rangeindex < len(vector) && len(encoded) == (len(vector)+63)/64
 //@   loop 1 invariant forall(k, 0, rangeindex+1, bitAt(encoded, k) == (vector[k] > bq.threshold[k]))
 //@   loop 1 invariant forall(k, rangeindex+1, len(encoded)*64, !bitAt(encoded, k))
+
+// ---- stored points as seen by the searches (properties C03, C04) ----
+// pid(p): the id a point reports; pdist(p): the distance of the point to the query a distance
+// closure was built for. Both are assumed to be functions of the point value (every Id()
+// implementation returns an id field that is never reassigned; the closures are deterministic).
+//@ spec pid(p VectorStorePoint) uint64
+//@ spec pdist(p VectorStorePoint) float32
+//@ func (VectorStorePoint).Id
+//@   trusted
+//@   pure
+//@   ensures result == pid(recv)
+//@ func (VectorStore).ForEach
+//@   trusted
+//@   pure
+//@   iterates fn
+//@ func (VectorStore).DistanceFromFloat
+//@   trusted
+//@   pure
